@@ -531,15 +531,15 @@ func drive(id, tier string) int {
 		"seed":        seed,
 		"level":       "exploration",
 		"coverage": map[string]interface{}{
-			"evaluations":          evals,
-			"distinct_nontrivial":  len(classes),
-			"rule":                 ck.Rule,
-			"samples":              samples,
-			"trivial_evaluations":  trivial,
-			"cases":                cases,
-			"class_examples":       classList,
-			"observation_counters": counters,
-			"configurations":       configs,
+			"evaluations":                           evals,
+			"distinct_nontrivial":                   len(classes),
+			"rule":                                  ck.Rule,
+			"samples":                               samples,
+			"trivial_evaluations":                   trivial,
+			"cases":                                 cases,
+			"class_examples":                        classList,
+			"observation_counters":                  counters,
+			"configurations":                        configs,
 			"distinct_arrival_orders_per_hook_site": orderCounts,
 			"arrival_order_examples":                orderSamples,
 			"race_reports":                          races,
